@@ -60,9 +60,9 @@ CONSTANTS
                            \*       (used with the as-built switches, where violations are expected and replayed)
 
 VARIABLES bp, opts, sol, cat, val, attr, eqs, ieqs, rel, newc, orig,
-          pc, iter, algLeft, status, nonaffine, last
+          pc, iter, algLeft, status, nonaffine, hazard, last
 
-vars == <<bp, opts, sol, cat, val, attr, eqs, ieqs, rel, newc, orig, pc, iter, algLeft, status, nonaffine, last>>
+vars == <<bp, opts, sol, cat, val, attr, eqs, ieqs, rel, newc, orig, pc, iter, algLeft, status, nonaffine, hazard, last>>
 
 -----------------------------------------------------------------------------
 (* Expression trees, uniform node shape *)
@@ -687,7 +687,7 @@ Init ==
                     attr |-> m.attr]
     /\ rel = {}
     /\ newc = [x \in {} |-> 0]
-    /\ pc = 1 /\ iter = 1 /\ algLeft = 0 /\ status = "run" /\ nonaffine = FALSE
+    /\ pc = 1 /\ iter = 1 /\ algLeft = 0 /\ status = "run" /\ nonaffine = FALSE /\ hazard = {}
     /\ last = [pass |-> "init"]
 
 Live == DOMAIN cat
@@ -1033,16 +1033,30 @@ ExpandMX == Step("expand_mx") /\ Skip
 (* ---- end of _simplify_once: simplify() repeats while the number of algebraic states changes ---- *)
 EndOnce ==
     /\ status = "run" /\ pc = Len(Passes) + 1
-    /\ UNCHANGED <<bp, opts, sol, orig, cat, val, attr, eqs, ieqs, rel, newc, nonaffine>>
+    /\ UNCHANGED <<bp, opts, sol, orig, cat, val, attr, eqs, ieqs, rel, newc, nonaffine, hazard>>
     /\ last' = [pass |-> "end", iter |-> iter]
     /\ IF Has("iterative_simplification") /\ algLeft # Cardinality(A) /\ iter < 4
-       THEN /\ pc' = 1 /\ iter' = iter + 1 /\ algLeft' = Cardinality(A) /\ status' = "run"
+       THEN /\ pc' = 1 /\ iter' = iter + 1 /\ algLeft' = Cardinality(A)
+            \* As built, a further iteration cannot cope with what two passes leave behind and ends in an exception
+            \* (reported failure; the spec does not say in which pass):
+            \*   - after reduce_affine_expression the equations are one vector expression over fresh vector symbols
+            \*     (AssertionError in the SX round trip, or free variables in reduce_affine_expression's own functions);
+            \*   - a derivative symbol created by eliminable_variable_expression has no _modelica_shape, which
+            \*     _expand_vectors reads (AttributeError) when expand_vectors is on.
+            /\ status' = IF "affined" \in hazard \/ ("new-derivative" \in hazard /\ Has("expand_vectors"))
+                         THEN "raised" ELSE "run"
        ELSE /\ pc' = pc /\ iter' = iter /\ algLeft' = algLeft /\ status' = "done"
 
-Next == \/ ExpandVectorsSX \/ ResolveParameterValues \/ ReplaceParameterExpressions
-        \/ ReplaceConstantExpressions \/ EliminateConstantAssignments \/ ReplaceParameterValues
-        \/ ReplaceConstantValues \/ EliminableVariables \/ ExpandVectorsMX \/ FactorAndSimplify
-        \/ DetectAliases \/ ReduceAffine \/ ExpandMX \/ EndOnce
+PassNext == \/ ExpandVectorsSX \/ ResolveParameterValues \/ ReplaceParameterExpressions
+            \/ ReplaceConstantExpressions \/ EliminateConstantAssignments \/ ReplaceParameterValues
+            \/ ReplaceConstantValues \/ EliminableVariables \/ ExpandVectorsMX \/ FactorAndSimplify
+            \/ DetectAliases \/ ReduceAffine \/ ExpandMX
+(* what a pass leaves behind that a LATER iteration of the real code cannot cope with (see EndOnce) *)
+Hazards == hazard' = hazard
+              \cup (IF last'.pass = "reduce_affine_expression" /\ Has("reduce_affine_expression") THEN {"affined"} ELSE {})
+              \cup (IF last'.pass = "eliminable_variable_expression" /\ DOMAIN cat' \ DOMAIN cat # {}
+                    THEN {"new-derivative"} ELSE {})
+Next == (PassNext /\ Hazards) \/ EndOnce
 
 Spec == Init /\ [][Next]_vars
 
@@ -1090,7 +1104,7 @@ TypeOK ==
 
 -----------------------------------------------------------------------------
 (* Output for the harness *)
-View == <<bp, opts, cat, val, attr, eqs, ieqs, rel, newc, pc, iter, algLeft, status, nonaffine>>
+View == <<bp, opts, cat, val, attr, eqs, ieqs, rel, newc, pc, iter, algLeft, status, nonaffine, hazard>>
 
 Summary(c, E, R) == [S |-> NamesOf(c, {"S"}), D |-> NamesOf(c, {"D"}), A |-> NamesOf(c, {"A"}),
                      I |-> NamesOf(c, {"I"}), P |-> NamesOf(c, {"P"}), K |-> NamesOf(c, {"K"}),
